@@ -457,6 +457,16 @@ func inlineFile(p *packages.Package, f *ast.File, src []byte, uniq *int, counts 
 		if fd, ok := d.(*ast.FuncDecl); ok && fd.Body != nil {
 			visitStmts(fd.Body.List)
 		}
+		// function literals in package-level variable initialisers (`var hook = func(…) { … }`)
+		if gd, ok := d.(*ast.GenDecl); ok && gd.Tok == token.VAR {
+			ast.Inspect(gd, func(nd ast.Node) bool {
+				if lit, isLit := nd.(*ast.FuncLit); isLit {
+					visitStmts(lit.Body.List)
+					return false
+				}
+				return true
+			})
+		}
 	}
 	if n == 0 {
 		return src, 0
